@@ -204,6 +204,8 @@ def make_union(args):
     order was created first in the process -- the bridge must build exactly the declared member order."""
     flat = []
     for a in args:
+        if isinstance(a, str):
+            a = typing.ForwardRef(a)          # what typing.Union[...] itself does with a string argument
         if typing.get_origin(a) is typing.Union:
             flat.extend(typing.get_args(a))
         else:
